@@ -291,3 +291,152 @@ def compare_runs(impl, model, rtol=1e-9, what="2D"):
             dis.append(f"{what} {name}[row {impl['rows'][int(r)]}, node {int(x)}]: impl {a[r, x]!r} vs model "
                        f"{b[r, x]!r} ({len(bad)} entries differ, max abs {float(np.nanmax(np.abs(a - b))):.3e})")
     return dis
+
+
+# ---------------------------------------------------------------------------
+# independent enthalpy accounting on the REPORTED fields (C02) -- written from the
+# published balance (constant latent heat, mixture heat capacity), not from the
+# code's update formulas
+# ---------------------------------------------------------------------------
+def _p_liquid(T):
+    return np.exp(54.842763 - 6763.22 / T - 4.210 * np.log(T) + 0.000367 * T
+                  + np.tanh(0.0415 * (T - 218.8)) * (53.878 - 1331.22 / T - 9.44523 * np.log(T) + 0.014025 * T))
+
+
+def _p_ice(T):
+    return np.exp(9.550426 - 5723.265 / T + 3.53068 * np.log(T) - 0.00728332 * T)
+
+
+def _evap_flux(const, T, frozen):
+    """evaporative heat flux into the product [W/m2] (negative: heat leaves)"""
+    p = _p_ice(T) if frozen else _p_liquid(T)
+    kap, mw, kB = const["kappa"], const["m_water"], const["k_B"]
+    Nw = (2 / (2 - kap)) * np.sqrt(mw * kap ** 2 / (2 * np.pi * kB)) * (p / np.sqrt(T) - const["p_vac"] / np.sqrt(T))
+    return -Nw * const["Dh_evaporation"]
+
+
+def cell_geometry(const, dim, Nz=30, Nr=15):
+    """volumes / boundary areas of the cells of the REPORTED grid
+    (z = linspace(0,H,Nz), r = linspace(0,R,Nr); half cells at the ends)"""
+    H = const["height"]
+    hz = H / (Nz - 1)
+    dzc = np.full(Nz, hz)
+    dzc[0] = dzc[-1] = hz / 2
+    if dim == "spatial_1D":
+        A = const["A"]
+        return {"vol": A * dzc, "bottom": A, "top": A, "wall": np.zeros(Nz)}
+    R = const["diameter"] / 2
+    hr = R / (Nr - 1)
+    r = np.linspace(0, R, Nr)
+    ro = np.minimum(r + hr / 2, R)
+    ri = np.maximum(r - hr / 2, 0)
+    ann = np.pi * (ro ** 2 - ri ** 2)
+    return {"vol": np.outer(dzc, ann), "bottom": ann, "top": ann, "wall": 2 * np.pi * R * dzc}
+
+
+def energy_series(case, res, dt):
+    """Cumulative enthalpy change of the product and cumulative boundary heat at
+    every reported time (every step must have been recorded: stride 1).
+    Returns dict(dH, Q, Qabs, inuc) of arrays over the reported rows."""
+    const = res["const"]
+    dim = const["dimensionality"]
+    T = res["temp"] + 273.15
+    w = res["ice"]
+    shelf = res["shelf"] + 273.15
+    n = T.shape[0]
+    geo = cell_geometry(const, dim)
+    rho = const["rho_l"]
+    ws = const["solid_fraction"]
+    cps, cpi, cpw, Dh = const["cp_s"], const["cp_i"], const["cp_w"], const["Dh"]
+    lam_w, lam_i = const["lambda_w"], const["lambda_i"]
+    K = case["K_shelf"]
+    cfg = const["configuration"]
+    flat_ice = w.reshape(n, -1).max(axis=1)
+    has = np.nonzero(flat_ice > 0)[0]
+    inuc = int(has[0]) if len(has) else n  # row index of the post-nucleation field
+    if cfg == "jacket":
+        Kw = 1.0 / (1.0 / K + const["air_gap"] / const["lambda_air"])
+    dH = np.zeros(n)
+    Q = np.zeros(n)
+    Qabs = np.zeros(n)
+    time_s = res["time"] * 3600.0
+    for k in range(1, n):
+        T0, T1, w0, w1 = T[k - 1], T[k], w[k - 1], w[k]
+        wbar = 0.5 * (w0 + w1)
+        if k == inuc:
+            cp = ws * cps + (1 - ws) * cpw  # the jump starts from the liquid solution
+        else:
+            cp = ws * cps + wbar * cpi + (1 - ws - wbar) * cpw
+        dh = rho * (cp * (T1 - T0) - Dh * (w1 - w0))
+        dH[k] = dH[k - 1] + float(np.sum(dh * geo["vol"]))
+        if k == inuc:
+            q = 0.0
+            qa = 0.0
+        else:
+            Tsh = shelf[k]
+            frozen = k > inuc
+            # time at which the step k-1 -> k was taken
+            t_old = time_s[k] if k < inuc else time_s[k]
+            if dim == "spatial_1D":
+                qs = K * (Tsh - T0[0]) * geo["bottom"]
+                q = qs
+                qa = abs(qs)
+                if cfg == "VISF" and _in_window(const, t_old):
+                    qe = float(_evap_flux(const, T0[-1], frozen)) * geo["top"]
+                    q += qe
+                    qa += abs(qe)
+            else:
+                qs = np.sum(K * (Tsh - T0[0, :]) * geo["bottom"])
+                q = float(qs)
+                qa = abs(float(qs))
+                if cfg == "VISF" and _in_window(const, t_old):
+                    qe = float(np.sum(_evap_flux(const, T0[-1, :], frozen) * geo["top"]))
+                    q += qe
+                    qa += abs(qe)
+                if cfg == "jacket":
+                    qj = float(np.sum(Kw * (Tsh - T0[:, -1]) * geo["wall"]))
+                    q += qj
+                    qa += abs(qj)
+            # number of time steps between the two reported rows (1 when every step is recorded)
+            steps = 1 if k == inuc + 1 else max(1, int(round((time_s[k] - time_s[k - 1]) / dt)))
+            q *= dt * steps
+            qa *= dt * steps
+        Q[k] = Q[k - 1] + q
+        Qabs[k] = Qabs[k - 1] + qa
+    # grid term: enthalpy of ONE grid layer (1/Nz of the product) changed by the largest
+    # change seen so far -- the quadrature uncertainty of a 30-point profile
+    Vtot = float(np.sum(geo["vol"]))
+    cp0 = ws * cps + (1 - ws) * cpw
+    dTmax = np.maximum.accumulate(np.abs(T - T[0]).reshape(n, -1).max(axis=1))
+    wmax = np.maximum.accumulate(flat_ice)
+    grid = (1.0 / 30) * rho * Vtot * (cp0 * dTmax + Dh * wmax)
+    return {"dH": dH, "Q": Q, "Qabs": Qabs, "inuc": inuc, "grid": grid}
+
+
+def energy_verdict(es, rel=0.03):
+    """worst violation of |dH - Q| <= rel*Qabs + grid over the reported rows:
+    returns (worst_excess_ratio, row) where ratio = |dH-Q| / tolerance (> 1: violated)"""
+    tol = rel * es["Qabs"] + es["grid"]
+    err = np.abs(es["dH"] - es["Q"])
+    ratio = np.where(tol > 0, err / np.where(tol > 0, tol, 1), 0.0)
+    k = int(np.argmax(ratio))
+    return float(ratio[k]), k
+
+
+def _in_window(const, t):
+    a = const["t_vac_start"] * 3600
+    b = (const["t_vac_start"] + const["t_vac_duration"]) * 3600
+    return a < t < b
+
+
+def code_dt(const):
+    """the time step the code derives from the constants (same expression)"""
+    Nz, Nr = 30, 15
+    dz = const["height"] / Nz
+    alpha_max = const["lambda_i"] / (const["cp_i"] * const["rho_l"])
+    if const["dimensionality"] == "spatial_2D":
+        dr = (const["diameter"] / 2) / Nr
+        return (0.4 / alpha_max) * (dz ** 2 * dr ** 2) / (dr ** 2 + dz ** 2)
+    if const["dimensionality"] == "spatial_1D":
+        return 0.4 * dz ** 2 / alpha_max
+    return 0.1
